@@ -24,6 +24,7 @@ import (
 	"sort"
 	"strings"
 	"sync"
+	"sync/atomic"
 	"time"
 
 	"github.com/influxdata/influxdb/pkg/verifhook"
@@ -70,7 +71,8 @@ type hctx struct {
 	tornSnapOnce bool           // instead of an error: the freshly written snapshot file is cut in half before it is installed
 	recovering   bool           // root is being opened (hooks = crash during recovery)
 	failed       bool
-	tornMode     bool // this history's snapshot fault is a torn output file
+	dead         *int32 // shared by all contexts of a case: the case was abandoned by a watchdog, whatever still runs must not judge
+	tornMode     bool   // this history's snapshot fault is a torn output file
 	tornActive   bool
 	tornAll      bool
 	noContinue   bool
@@ -150,8 +152,9 @@ func body() {
 			for j := range ch {
 				base := filepath.Join(scratch, fmt.Sprintf("h%d", j.idx))
 				os.MkdirAll(base, 0o755)
-				runCase(j.id, j.seed, j.idx, base)
-				os.RemoveAll(base)
+				if runCase(j.id, j.seed, j.idx, base) {
+					os.RemoveAll(base)
+				}
 			}
 		}()
 	}
@@ -167,7 +170,9 @@ func body() {
 	r.Finish()
 }
 
-func runCase(caseID string, seed int64, idx int, base string) {
+// runCase returns false when the case was abandoned by a watchdog (its
+// directory must stay: the stuck operation may still be using it).
+func runCase(caseID string, seed int64, idx int, base string) bool {
 	g := rand.New(rand.NewSource(seed))
 	index := "inmem"
 	if idx%3 == 2 {
@@ -177,7 +182,7 @@ func runCase(caseID string, seed int64, idx int, base string) {
 	c := &hctx{caseID: caseID, seed: seed, index: index, base: base, root: filepath.Join(base, "live"),
 		tr: sm.NewTracker(), g: g, walPre: map[string]int64{}, imgSeq: &seq,
 		contBudget: map[string]int{"torn": 1, "snap": 1, "other": 1},
-		tornAll:    r.Thorough(), taint: new(string)}
+		tornAll:    r.Thorough(), taint: new(string), dead: new(int32)}
 	if r.Thorough() {
 		c.contBudget = map[string]int{"torn": 3, "snap": 2, "other": 2}
 	}
@@ -243,6 +248,7 @@ func runCase(caseID string, seed int64, idx int, base string) {
 	if c.env != nil {
 		closeWatched(c.env)
 	}
+	return atomic.LoadInt32(c.dead) == 0
 }
 
 func closeWatched(e *sm.Env) {
@@ -250,6 +256,15 @@ func closeWatched(e *sm.Env) {
 	if res != ev.Finished {
 		r.Inconclusive("Close did not finish")
 	}
+}
+
+// opLimit is the watchdog of one operation including every image it spawns
+// (thorough: three levels of continued images per hook firing).
+func opLimit() time.Duration {
+	if r.Thorough() {
+		return 45 * time.Minute
+	}
+	return 10 * time.Minute
 }
 
 // runOps executes ops on c's live root; every hook fired meanwhile produces images.
@@ -269,9 +284,10 @@ func (c *hctx) runOps(ops []sm.Op, failSnapAt int) {
 			failSnapAt = -1
 		}
 		var opErr error
-		res, _ := ev.Watch(300*time.Second, 20*time.Second, func() { opErr = c.exec(op) })
+		res, _ := ev.Watch(opLimit(), 20*time.Second, func() { opErr = c.exec(op) })
 		if res != ev.Finished {
 			r.Inconclusive(fmt.Sprintf("%s: %s did not finish (deadlock evidence=%v); history abandoned", c.caseID, op, res == ev.Deadlocked))
+			atomic.StoreInt32(c.dead, 1)
 			c.failed = true
 			c.env = nil // leave the hung store alone
 			return
@@ -395,6 +411,9 @@ type witness struct {
 
 func (c *hctx) violation(sig, what string, files []string) {
 	c.failed = true
+	if c.dead != nil && atomic.LoadInt32(c.dead) == 1 {
+		return // the case was abandoned: its directories may be gone already
+	}
 	r.Violation(sig, c.caseID, what, witness{c.seed, c.index, c.chain, c.ops, c.pendKind, what, files})
 }
 
@@ -406,7 +425,7 @@ func onHook(name string, args ...interface{}) error {
 	}
 	path, _ := args[0].(string)
 	c := find(path)
-	if c == nil || c.failed {
+	if c == nil || c.failed || (c.dead != nil && atomic.LoadInt32(c.dead) == 1) {
 		return nil
 	}
 	switch name {
@@ -456,6 +475,9 @@ func (c *hctx) image(hook, path string) {
 	*c.imgSeq++
 	baseImg := filepath.Join(c.base, fmt.Sprintf("img%d", *c.imgSeq))
 	if err := crashimg.CopyTree(c.root, baseImg); err != nil {
+		if c.dead != nil && atomic.LoadInt32(c.dead) == 1 {
+			return // abandoned case: its directories are being removed
+		}
 		fmt.Fprintf(os.Stderr, "harness: copy image: %v\n", err)
 		os.Exit(ev.ExitBroken)
 	}
@@ -514,12 +536,18 @@ func (c *hctx) judge(baseImg, tornRel, variant string, cut int64) {
 	*c.imgSeq++
 	img := filepath.Join(c.base, fmt.Sprintf("img%d", *c.imgSeq))
 	if err := crashimg.CopyTree(baseImg, img); err != nil {
+		if c.dead != nil && atomic.LoadInt32(c.dead) == 1 {
+			return // abandoned case: its directories are being removed
+		}
 		fmt.Fprintf(os.Stderr, "harness: copy image: %v\n", err)
 		os.Exit(ev.ExitBroken)
 	}
 	defer os.RemoveAll(img)
 	if cut >= 0 {
 		if err := os.Truncate(filepath.Join(img, tornRel), cut); err != nil {
+			if c.dead != nil && atomic.LoadInt32(c.dead) == 1 {
+				return // abandoned case: its directories are being removed
+			}
 			fmt.Fprintf(os.Stderr, "harness: truncate: %v\n", err)
 			os.Exit(ev.ExitBroken)
 		}
@@ -530,7 +558,7 @@ func (c *hctx) judge(baseImg, tornRel, variant string, cut int64) {
 
 	child := &hctx{caseID: c.caseID, seed: c.seed, index: c.index, base: c.base, root: img, tr: exp, depth: c.depth + 1,
 		chain: append(append([]string(nil), c.chain...), variant), g: c.g, walPre: map[string]int64{}, imgSeq: c.imgSeq,
-		contBudget: c.contBudget, pendW: c.pendW, pendD: c.pendD, pendKind: c.pendKind, recovering: true, tornAll: c.tornAll, taint: c.taint,
+		contBudget: c.contBudget, pendW: c.pendW, pendD: c.pendD, pendKind: c.pendKind, recovering: true, tornAll: c.tornAll, taint: c.taint, dead: c.dead,
 		ops: []string{"(recovery of image taken during: " + c.lastOp() + ")"}}
 	register(child)
 	defer unregister(child)
